@@ -420,6 +420,21 @@ def extract_query(path: Path) -> str:
     return out
 
 
+def extract_database(path: Path) -> str:
+    """Database.__call__ / _yield_results (a fresh cursor per query) and the instance state bound in __init__."""
+    mod = _parse(path)
+    call = [ast.unparse(x) for x in strip_doc(find_function(mod, '__call__', cls='Database').body)]
+    yld = [ast.unparse(x) for x in strip_doc(find_function(mod, '_yield_results', cls='Database').body)]
+    init = find_function(mod, '__init__', cls='Database')
+    attrs = sorted({t.attr for n in ast.walk(init) if isinstance(n, (ast.Assign, ast.AnnAssign))
+                    for t in (n.targets if isinstance(n, ast.Assign) else [n.target])
+                    if isinstance(t, ast.Attribute) and isinstance(t.value, ast.Name) and t.value.id == 'self'})
+    return (f'Definition src_database_call : list string := {clist(cstr(x) for x in call)}.\n'
+            f'Definition src_yield_results : list string := {clist(cstr(x) for x in yld)}.\n'
+            f'Definition src_database_state : list string := {clist(cstr(x) for x in attrs)}.\n')
+
+
+
 HEAD = ('(* generated by translator/c14_extract.py from the current working tree — do not edit *)\n'
         'From Coq Require Import ZArith List String Bool.\nFrom AV Require Import lib.Dates model.C14_Model model.C14_Sql.\n'
         'Import ListNotations.\nOpen Scope Z_scope.\n\n')
@@ -437,4 +452,5 @@ def extract_parts(repo: Path):
             ('extract:filter.py:Filter._normalize+_spatial', extract_normalize(f) + '\n'),
             ('extract:filter.py:Filter.to_sql', extract_to_sql(f) + '\n'),
             ('extract:filter.py:spatial condition builders', extract_spatial_builders(f) + '\n'),
-            ('extract:query.py:_common_conditions+Query+CountQuery+FrequentFlightQuery', extract_query(q))]
+            ('extract:query.py:_common_conditions+Query+CountQuery+FrequentFlightQuery', extract_query(q) + '\n'),
+            ('extract:database.py:Database.__call__', extract_database(src / 'database.py'))]
